@@ -363,12 +363,20 @@ class Verdict:
         return 1 if self.violations else 0
 
 
+NEGATIVES_FOR = {"C01": ["ResourceImpl_orig"], "C08": ["MC_Pool_orig.cfg"], "C09": ["physdestroy"], "C11": ["MC_ConcRouter_"],
+                 "C15": ["origrace", "expiryrace", "oneshot_code_ListWriteExclusive"], "C20": ["ThreadStart_TRUE"]}
+
+
 def write_evidence(pid, tier, seed, level, coverage, assumptions, wall_s, violations, extra=None):
     EVIDENCE.mkdir(parents=True, exist_ok=True)
     ev = {"property_id": pid, "tier": tier, "seed": int(seed), "level": level, "coverage": coverage,
           "assumptions": assumptions, "wall_s": round(wall_s, 2), "violations": int(violations)}
     if extra:
         ev.update(extra)
+    if tier == "thorough" and pid in NEGATIVES_FOR:
+        # non-vacuity at the model level: the named deviations this property was written against, re-run now
+        from . import negatives
+        ev["coverage"] = dict(ev["coverage"], model_negatives=negatives.summary(NEGATIVES_FOR[pid]))
     (EVIDENCE / (pid + ".json")).write_text(json.dumps(ev, indent=1, default=str) + "\n")
     return ev
 
